@@ -11,6 +11,7 @@ import (
 	"time"
 
 	"go.sia.tech/core/gateway"
+	"go.sia.tech/core/types"
 	"go.sia.tech/coreutils/syncer"
 
 	"verif/internal/ev"
@@ -549,6 +550,7 @@ func runShutdownCorners() (sig, what string) {
 		nd := node.New(u)
 		mn := memnet.New()
 		remote := mn.Listen("10.2.2.2:9000")
+		accepted := make(chan *gateway.Transport, 1)
 		go func() {
 			for {
 				c, err := remote.Accept()
@@ -558,6 +560,10 @@ func runShutdownCorners() (sig, what string) {
 				go func() {
 					t, err := gateway.Accept(c, gateway.Header{GenesisID: genesisID, UniqueID: gateway.GenerateUniqueID(), NetAddress: "10.2.2.2:9000"})
 					if err == nil {
+						select {
+						case accepted <- t:
+						default:
+						}
 						serveSPeer(t)
 					}
 				}()
@@ -570,6 +576,29 @@ func runShutdownCorners() (sig, what string) {
 		cancel()
 		if err != nil {
 			return "harness:connect", err.Error()
+		}
+		// the peer is being served once a request of the remote side has been answered (positive event; without
+		// it Close can win the race against the peer goroutine's registration and return trivially)
+		select {
+		case t := <-accepted:
+			st, err := t.DialStream()
+			if err != nil {
+				return "harness:stream", err.Error()
+			}
+			st.SetDeadline(time.Now().Add(20 * time.Second))
+			req := &gateway.RPCSendHeaders{Index: types.ChainIndex{ID: genesisID}, Max: 1}
+			if err := st.WriteID(req); err == nil {
+				err = st.WriteRequest(req)
+			}
+			if err == nil {
+				err = st.ReadResponse(req)
+			}
+			st.Close()
+			if err != nil {
+				return "c18:peer-not-served-without-run", "a syncer with one outbound peer (Connect) whose Run was never started does not answer that peer's SendHeaders: " + err.Error()
+			}
+		case <-time.After(20 * time.Second):
+			return "harness:accept", "the remote side never saw the connection"
 		}
 		done := make(chan struct{})
 		go func() { s.Close(); close(done) }()
